@@ -47,6 +47,7 @@ FIELD_TYPES = {
     ('ProcessCommand', 'minimum_ticks'): INT,
     # declared at base level so that specifications over a ProcessCommand can read it (field of ProcessStartCommand)
     ('ProcessCommand', 'ignore_wait_exit'): BOOL,
+    ('Commander', 'class_name'): STR,
     ('SupvisorsInstanceStatus', 'stats_collector'): TOpt(TObj('StatisticsCollectorProcess')),
     # annotated float, but only ever built by HostStatisticsCompiler.add_instance from options.stats_histo (an int)
     ('HostStatisticsInstance', 'depth'): INT,
@@ -74,6 +75,9 @@ REC_KEYS = {
     'period': TTuple([REAL, REAL]),
     # handshake notifications
     'authorization': INT,
+    # state & modes publications (StateModes.serial / StateModes.update)
+    'fsm_statecode': INT, 'fsm_statename': STR, 'degraded_mode': BOOL, 'discovery_mode': BOOL, 'master_identifier': STR,
+    'starting_jobs': BOOL, 'stopping_jobs': BOOL, 'instance_states': TDict(STR, STR),
 }
 
 EXTERNAL_TYPES = {}
